@@ -54,7 +54,7 @@ Definition proj (t : string) : list string :=
   else if String.eqb t "dec:$r.listeners" then ["unreg"]
   else if String.eqb t "call:$r.activeAdd" then ["add"]
   else if String.eqb t "call:$r.activeDone" then ["done"]
-  else if String.eqb t "call:listener.Close" then ["close"]
+  else if String.eqb t "call:(rangekey $r.listeners).Close" then ["close"]
   else if String.eqb t "call:$r.ctxDone" then ["cancel"]
   else if String.eqb t "call:$0.ReadFrom" then ["read"]
   else if String.eqb t "call:$r.Handler.ServeRADIUS" then ["handler"]
@@ -98,6 +98,7 @@ Fixpoint interp (fuel : nat) (ds : list bool) (toks pend : list string) : list s
         (* one iteration of the loop body *)
         interp f ds (fst (block_of r) ++ ["continue"]) pend
       else if String.prefix "return:" t then interp f ds pend [] ++ proj_return t
+      else if String.eqb t "call:panic" then proj t ++ interp f ds pend []     (* the deferred calls run, nothing else *)
       else if String.eqb t "continue" then []
       else proj t ++ interp f ds r pend
     end
@@ -106,6 +107,77 @@ Fixpoint interp (fuel : nat) (ds : list bool) (toks pend : list string) : list s
 End Interp.
 
 Definition path (ds : list bool) (toks : list string) : list string := interp proj 400 ds toks [].
+
+(* every list of [n] decisions: a path never asks for more decisions than it has if/select tests on it, so the lists
+   of a sufficient length reach every path through a skeleton (a path that ran out of decisions ends in a
+   "no-decision-left" token, which is no trace of any model) *)
+Fixpoint all_lists (n : nat) : list (list bool) :=
+  match n with O => [[]] | S m => map (cons true) (all_lists m) ++ map (cons false) (all_lists m) end.
+Fixpoint ls_eqb (a b : list string) : bool :=
+  match a, b with
+  | [], [] => true
+  | x :: a', y :: b' => String.eqb x y && ls_eqb a' b'
+  | _, _ => false
+  end.
+Lemma ls_eqb_eq a b : ls_eqb a b = true -> a = b.
+Proof.
+  revert b; induction a as [|x a IH]; intros [|y b] H; cbn in H; try discriminate; [reflexivity|].
+  apply andb_prop in H; destruct H as [H1 H2]. apply String.eqb_eq in H1. subst. f_equal. apply IH, H2.
+Qed.
+(* every path of [n] decisions through [toks] is one of [traces] *)
+Definition paths_within (pj : string -> list string) (n : nat) (toks : list string) (traces : list (list string)) : bool :=
+  forallb (fun ds => existsb (ls_eqb (interp pj 400 ds toks [])) traces) (all_lists n).
+Lemma paths_within_spec pj n toks traces :
+  paths_within pj n toks traces = true ->
+  forall ds, In ds (all_lists n) -> In (interp pj 400 ds toks []) traces.
+Proof.
+  unfold paths_within; intros H ds Hin.
+  rewrite forallb_forall in H. specialize (H ds Hin). apply existsb_exists in H.
+  destruct H as [t [Ht He]]. apply ls_eqb_eq in He. rewrite He. exact Ht.
+Qed.
+Lemma all_lists_complete n ds : List.length ds = n -> In ds (all_lists n).
+Proof.
+  revert ds; induction n as [|n IH]; intros [|b ds] H; cbn in H; try discriminate.
+  - left; reflexivity.
+  - cbn [all_lists]. apply in_or_app. destruct b; [left|right]; apply in_map; apply IH; congruence.
+Qed.
+
+(* ---------- lockset discipline on the source side ----------
+   The walk without a projection keeps every token. [lockset] follows s.mu and the goroutines' requestsLock along it:
+   no lock is taken twice or released when not held, every operation on s.listeners (and every call of initLocked,
+   the only writer of the server's other fields) happens with s.mu held, every operation on the in-flight table
+   with requestsLock held, and the path ends with both released. *)
+Definition raw (t : string) : list string := [t].
+Definition rawpath (ds : list bool) (toks : list string) : list string := interp raw 400 ds toks [].
+
+Definition touches_server (t : string) : bool :=
+  String.prefix "inc:$r.listeners" t || String.prefix "dec:$r.listeners" t || String.prefix "delete:$r.listeners" t ||
+  String.prefix "index:$r.listeners" t || String.prefix "range:$r.listeners" t || String.prefix "set:$r." t ||
+  String.eqb t "call:$r.initLocked".
+Definition touches_table (t : string) : bool :=
+  String.prefix "set:(val map[" t || String.prefix "delete:(val map[" t || String.prefix "index:(val map[" t.
+
+Fixpoint lockset (mu rq : bool) (l : list string) : bool :=
+  match l with
+  | [] => negb mu && negb rq
+  | t :: r =>
+    if String.eqb t "call:$r.mu.Lock" then negb mu && lockset true rq r
+    else if String.eqb t "call:$r.mu.Unlock" then mu && lockset false rq r
+    else if String.eqb t "call:(var sync.Mutex).Lock" then negb rq && lockset mu true r
+    else if String.eqb t "call:(var sync.Mutex).Unlock" then rq && lockset mu false r
+    else if touches_server t then mu && lockset mu rq r
+    else if touches_table t then rq && lockset mu rq r
+    else lockset mu rq r
+  end.
+
+Definition lockset_within (n : nat) (toks : list string) : bool :=
+  forallb (fun ds => lockset false false (rawpath ds toks)) (all_lists n).
+Lemma lockset_within_spec n toks :
+  lockset_within n toks = true -> forall ds, List.length ds = n -> lockset false false (rawpath ds toks) = true.
+Proof.
+  unfold lockset_within; intros H ds Hlen. rewrite forallb_forall in H. apply H.
+  apply all_lists_complete, Hlen.
+Qed.
 
 (* the body of the first goroutine started *)
 Fixpoint go_block (toks : list string) : list string :=
